@@ -1,6 +1,7 @@
 // C33 correspondence harness for package lib/grandpa (injected by `go test -overlay`).
 //
-// inputs:   dec <decoder> <kind> <hex bytes>      decoder: ghs (Service.decodeHandshake)
+// inputs:   shape <decoder>                       -> exported field names of the destination types
+//           dec <decoder> <kind> <hex bytes>      decoder: ghs (Service.decodeHandshake)
 //                                                          gmsg (Service.decodeMessage + decodeMessage)
 // observables: as in props/C33/harness_network_test.go; a GRANDPA message is rendered as the
 //   varying data type it was decoded from: V0:<vote message> V1:<commit> V2:V1:<neighbour packet>
@@ -37,6 +38,8 @@ var c33Descs = map[string]string{
 var c33Names = []string{"ghs", "gmsg", "gmsg", "gmsg"}
 
 func c33Gen(r *vu.RNG, n int, emit func(string)) {
+	emit("shape ghs")
+	emit("shape gmsg")
 	for _, name := range []string{"ghs", "gmsg"} {
 		for _, b := range [][]byte{nil, {0}, {1}, {2}, {2, 0}, {2, 1}, {5}, {0xff}, {1, 0xff, 0xff, 0xff, 0xff}} {
 			emit("dec " + name + " rand " + vu.Hex(b))
@@ -95,6 +98,13 @@ func c33Decode(name string, in []byte) (text string, reenc []byte, hasRe bool, e
 
 func c33Run(in string) string {
 	f := strings.Split(in, " ")
+	if f[0] == "shape" {
+		if f[1] == "ghs" {
+			return vc.Names(GrandpaHandshake{})
+		}
+		return strings.Join([]string{vc.Names(VoteMessage{}), vc.Names(CommitMessage{}), vc.Names(NeighbourPacketV1{}),
+			vc.Names(CatchUpRequest{}), vc.Names(CatchUpResponse{})}, ";")
+	}
 	if len(f) != 4 || f[0] != "dec" {
 		return "err:badinput"
 	}
